@@ -16,9 +16,9 @@ def probe_size(p):
     if not isinstance(p, dict):
         return None
     if p.get("probe") in ("read", "debugfmt", "codec"):
-        if not p.get("bytes_hex") and p.get("len", 0) != 0:
+        if not p.get("bytes_hex") and not p.get("bytes_rle") and p.get("len", 0) != 0:
             return None
-        return p.get("len", 0)
+        return p.get("len", 0) if p.get("bytes_hex") or not p.get("bytes_rle") else len(json.dumps(p["bytes_rle"]))
     return len(json.dumps(p))
 
 
